@@ -1498,6 +1498,9 @@ Proof. induction l; intros [|i] z f g H E; simpl in *; try discriminate; [invers
 Lemma update_nth_none : forall A (l : list A) i f, nth_error l i = None -> update_nth l i f = l.
 Proof. induction l; intros [|i] f H; simpl in *; try discriminate; auto. f_equal; auto. Qed.
 
+Lemma update_nth_twice : forall A (l : list A) i f g, update_nth (update_nth l i f) i g = update_nth l i (fun z => g (f z)).
+Proof. induction l; intros [|i] f g; simpl; auto. f_equal; auto. Qed.
+
 Definition activate (z : shp) : shp := match sh_status z with RWaiting => z_status RActive z | _ => z end.
 
 (* baseResume.Apply *)
@@ -1551,7 +1554,7 @@ Proof.
     split; [|split; [intros z Hz; rewrite Hg; simpl; auto|repeat split; simpl; repeat dmatch; reflexivity]].
     rewrite Hs. unfold y. rewrite shape_log_event. unfold with_session; cbn [session_].
     rewrite (shape_upd_run _ wi (run_exit RExpired) (z_exit RExpired)) by reflexivity.
-    generalize (shape (session_ x)). intros sh. revert wi. clear. induction sh as [|z0 sh IH]; intros [|wi]; simpl; auto. f_equal; auto.
+    apply update_nth_twice.
   - (* dial *)
     destruct (Hbase (log_event x wi sr EDialEnded)) as (g & Hs & Hg). exists g. unfold apply_resume.
     rewrite shape_log_event in Hs. split; [exact Hs|]. split; [intros z Hz; rewrite Hg, Hz; auto|].
